@@ -76,7 +76,7 @@ def program_streams(ctx, micro_prefixes=None, want_random=True):
         micro = [(n, t) for n, t in micro if n.startswith(tuple(micro_prefixes))]
     off = rng.randrange(0, sz["micro_step"])
     for k, (name, text) in enumerate(micro):
-        if k % sz["micro_step"] == off % sz["micro_step"] or name.startswith("addrmix"):   # small directed families run in full
+        if k % sz["micro_step"] == off % sz["micro_step"] or name.startswith(("addrmix", "appid", "retmix")) or (name.startswith("unkop") and k % 2 == off % 2):   # small directed families run in full (unkop: every second)
             progs.append(("micro:" + name, text, {"stream": "micro"}))
     if want_random:
         for k in range(sz["random"]):
@@ -308,6 +308,13 @@ def run_c03(ctx):
                 det, fld = "rekey-to", "RekeyTo"
                 dangerous = [("addr", oracle.FRESH)]
                 mk = lambda v: {"RekeyTo": v}
+            elif kind == "retmix" and name.split("/")[1] in ("RekeyTo", "Fee"):
+                # the leaf ASSERTS the check of field A and returns another computed condition: no execution carrying A's
+                # dangerous value is approved, whatever the returned condition says -> A's detector must be silent
+                if name.split("/")[1] == "RekeyTo":
+                    det, fld, dangerous, mk = "rekey-to", "RekeyTo", [("addr", oracle.FRESH)], (lambda v: {"RekeyTo": v})
+                else:
+                    det, fld, dangerous, mk = "missing-fee-check", "Fee", [272001, 2**64 - 1], (lambda v: {"Fee": v})
             elif kind == "oc":
                 continue  # kind-based verdicts are limited by known finding D16
             else:
@@ -335,7 +342,7 @@ def run_c03(ctx):
         ctx["cov"]["exact_verdicts_checked"] = n
     # full grid for the direct-check prefixes
     old = sizes
-    generic_run(ctx, cmp_for(keys=None, paths=[], cfg=False), set(), micro_prefixes=["fee", "addr/RekeyTo", "bool", "spell"], extra=extra, known_ids=("D25",))
+    generic_run(ctx, cmp_for(keys=None, paths=[], cfg=False), set(), micro_prefixes=["fee", "addr/RekeyTo", "bool", "spell", "retmix", "unkop"], extra=extra, known_ids=("D25",))
 
 
 def run_c04(ctx):
